@@ -556,6 +556,19 @@ Fixpoint no_critless (t : rtree) : bool :=
   | Agg _ _ cs => has_crit t && forallb no_critless cs
   end.
 
+(* some task or call below *)
+Fixpoint has_leaf (t : rtree) : bool :=
+  match t with
+  | Leaf _ _ _ => true
+  | Agg _ _ cs => existsb has_leaf cs
+  end.
+(* no aggregator without any task or call below, anywhere in the subtree *)
+Fixpoint no_leafless (t : rtree) : bool :=
+  match t with
+  | Leaf _ _ _ => true
+  | Agg _ _ cs => existsb has_leaf cs && forallb no_leafless cs
+  end.
+
 Definition sub_paths (i : nat) (l : list (list nat)) : list (list nat) :=
   flat_map (fun p => match p with j :: r => if Nat.eqb i j then [r] else [] | [] => [] end) l.
 
@@ -566,9 +579,12 @@ Definition sub_paths (i : nat) (l : list (list nat)) : list (list nat) :=
    7  the same, below a leaf of [stale] (recorded finding C11-b)
    1  state differs from the combination of the critical descendants, no crit-less aggregator below
    6  state differs from the combination of the counted children's reported states
-   2  status differs from the combination of all descendants
+   2  status differs from the combination of all descendants, no task-less aggregator below
+   14 status differs from the combination of the children's reported statuses
    3  aggregator without critical descendant reports STANDBY instead of no opinion (C11-a)
-   9  aggregator without critical descendant reports something else than INVARIANT / STANDBY *)
+   9  aggregator without critical descendant reports something else than INVARIANT / STANDBY
+   10 aggregator without any task below (iterators expanded to nothing) reports INACTIVE (C11-c)
+   15 aggregator without any task below reports something else than INACTIVE *)
 Fixpoint snap_codes (stale : list (list nat)) (t : rtree) : list N :=
   match t with
   | Leaf _ _ _ => []
@@ -582,9 +598,12 @@ Fixpoint snap_codes (stale : list (list nat)) (t : rtree) : list N :=
               if no_critless t && negb (state_beq s (spec_state cst)) then 1 else 0;
               if existsb counted cs &&
                  negb (state_beq s (spec_state (map st_of (filter counted cs)))) then 6 else 0 ])
-      ++ [ if negb (status_beq x (spec_status (leaf_stats t))) then 2 else 0;
+      ++ [ if no_leafless t && negb (status_beq x (spec_status (leaf_stats t))) then 2 else 0;
+           if match cs with [] => false | _ :: _ => true end &&
+              negb (status_beq x (spec_status (map stat_of cs))) then 14 else 0;
            if negb (has_crit t) && negb (state_beq s INVARIANT)
-           then (if state_beq s STANDBY then 3 else 9) else 0 ]
+           then (if state_beq s STANDBY then 3 else 9) else 0;
+           if negb (has_leaf t) then (if status_beq x INACTIVE then 10 else 15) else 0 ]
       ++ (fix go (i : nat) (l : list rtree) : list N :=
             match l with
             | [] => []
@@ -596,7 +615,7 @@ Fixpoint snap_codes (stale : list (list nat)) (t : rtree) : list N :=
    different violation.  8 leaf does not report what it was last told / shape changed;
    13 ParentAdapter was not told the root's value; 11 result depends on the order of children;
    12 result depends on the order of updates to different tasks *)
-Definition prio : list N := [8; 13; 4; 1; 6; 2; 9; 5; 11; 12; 7; 3].
+Definition prio : list N := [8; 13; 4; 1; 6; 2; 14; 9; 15; 5; 11; 12; 7; 10; 3].
 Definition pick_code (present : list N) : N :=
   match filter (fun c => memN c present) prio with [] => 0 | c :: _ => c end.
 
